@@ -202,6 +202,12 @@ func fromCacheItem(
 
 	for _, rrs := range [][]dns.RR{resp.Answer, resp.Ns, resp.Extra} {
 		for _, rr := range rrs {
+			if rr.Header().Rrtype == dns.TypeOPT {
+				// The TTL field of an OPT RR contains the extended RCODE, the
+				// version, and the flags, not a TTL.
+				continue
+			}
+
 			rr.Header().Ttl = newTTL
 		}
 	}
